@@ -301,21 +301,51 @@ theorem readlines_ne_nil (txt : Str) (h : txt ≠ []) : readlines txt ≠ [] := 
   rw [e] at this
   exact h (by simpa using this.symm)
 
+theorem universalNewlines_ne_nil (txt : Str) (h : txt ≠ []) : universalNewlines txt ≠ [] := by
+  cases txt with
+  | nil => exact absurd rfl h
+  | cons c cs =>
+    by_cases hc : c = '\r'
+    · subst hc
+      cases cs with
+      | nil => simp [universalNewlines]
+      | cons d ds =>
+        by_cases hd : d = '\n'
+        · subst hd; simp [universalNewlines]
+        · rw [universalNewlines.eq_def]; simp
+          split <;> simp_all
+    · rw [universalNewlines.eq_def]; simp
+      split <;> simp_all
+
+/-- a text without carriage returns is handed over as it is -/
+theorem universalNewlines_id (txt : Str) (h : '\r' ∉ txt) : universalNewlines txt = txt := by
+  induction txt with
+  | nil => rfl
+  | cons c cs ih =>
+    simp only [List.mem_cons, not_or] at h
+    have hc : c ≠ '\r' := fun e => h.1 e.symm
+    rw [universalNewlines.eq_def]
+    split
+    · rename_i heq; cases heq
+    · rename_i heq; cases heq; exact absurd rfl hc
+    · rename_i heq; cases heq; exact absurd rfl hc
+    · rename_i heq; cases heq; rw [ih h.2]
+
 /-- **cleanFile_is_cleanContent** — for a non-empty regular file, what is at the path after `clean_file` is decided by
-`clean_content` on the lines read from it and by nothing else: the file holds EXACTLY the concatenation of the cleaned
-lines (whole content replaced: no byte of the old text survives behind it), or is gone when nothing is left; the
-cleaner's state is the one `clean_content` leaves -/
+`clean_content` on the lines read from it (cut behind `'\n'` only, after the newline translation of text mode) and by
+nothing else: the file holds EXACTLY the concatenation of the cleaned lines (whole content replaced: no byte of the old
+text survives behind it), or is gone when nothing is left; the cleaner's state is the one `clean_content` leaves -/
 theorem cleanFile_is_cleanContent (E : Env) (cfg : Cfg) (st : St) (call : Call) (txt : Str) (h : txt ≠ []) :
     cleanFile E cfg st call (.file txt) =
-      ((cleanContent E cfg st { call with lines := readlines txt }).1,
-       if (cleanContent E cfg st { call with lines := readlines txt }).2.isEmpty then FileSt.absent
-       else FileSt.file (cleanContent E cfg st { call with lines := readlines txt }).2.flatten) := by
-  have hr : (readlines txt).isEmpty = false := by
-    cases hx : readlines txt with
-    | nil => exact absurd hx (readlines_ne_nil txt h)
+      ((cleanContent E cfg st { call with lines := readlines (universalNewlines txt) }).1,
+       if (cleanContent E cfg st { call with lines := readlines (universalNewlines txt) }).2.isEmpty then FileSt.absent
+       else FileSt.file (cleanContent E cfg st { call with lines := readlines (universalNewlines txt) }).2.flatten) := by
+  have hr : (readlines (universalNewlines txt)).isEmpty = false := by
+    cases hx : readlines (universalNewlines txt) with
+    | nil => exact absurd hx (readlines_ne_nil _ (universalNewlines_ne_nil txt h))
     | cons a b => rfl
   simp only [cleanFile, hr]
-  by_cases he : (cleanContent E cfg st { call with lines := readlines txt }).2.isEmpty = true
+  by_cases he : (cleanContent E cfg st { call with lines := readlines (universalNewlines txt) }).2.isEmpty = true
   · simp [he]
   · simp [he]
 
@@ -325,20 +355,20 @@ theorem cleanFile_untouched (E : Env) (cfg : Cfg) (st : St) (call : Call) :
     cleanFile E cfg st call .absent = (st, .absent) ∧ cleanFile E cfg st call .link = (st, .link) ∧
     (cleanFile E cfg st call (.file [])).2 = .file [] := by
   refine ⟨rfl, rfl, ?_⟩
-  simp [cleanFile, readlines, readlinesGo]
+  simp [cleanFile, universalNewlines, readlines, readlinesGo]
 
 /-- every line stored by `clean_file` derives from exactly one line of the file, in the original order
 (`clean_monotone` carried over to the file) -/
 theorem cleanFile_monotone (E : Env) (cfg : Cfg) (st : St) (call : Call) (txt new : Str)
     (hf : (cleanFile E cfg st call (.file txt)).2 = .file new) (h : txt ≠ []) :
-    ∃ (idx : List Nat) (out : List Str), idx.Pairwise (· < ·) ∧ (∀ i ∈ idx, i < (readlines txt).length) ∧
-      idx.map (fun i => ((readlines txt)[i]?).bind (fun l =>
-        (cleanLine E cfg { call with lines := readlines txt }
-          (stateBefore E cfg st { call with lines := readlines txt } i) l).2)) = out.map some ∧
+    ∃ (idx : List Nat) (out : List Str), idx.Pairwise (· < ·) ∧ (∀ i ∈ idx, i < (readlines (universalNewlines txt)).length) ∧
+      idx.map (fun i => ((readlines (universalNewlines txt))[i]?).bind (fun l =>
+        (cleanLine E cfg { call with lines := readlines (universalNewlines txt) }
+          (stateBefore E cfg st { call with lines := readlines (universalNewlines txt) } i) l).2)) = out.map some ∧
       new = out.flatten := by
   rw [cleanFile_is_cleanContent E cfg st call txt h] at hf
-  obtain ⟨idx, hp, hb, hm⟩ := clean_monotone E cfg st { call with lines := readlines txt }
-  refine ⟨idx, (cleanContent E cfg st { call with lines := readlines txt }).2, hp, hb, hm, ?_⟩
+  obtain ⟨idx, hp, hb, hm⟩ := clean_monotone E cfg st { call with lines := readlines (universalNewlines txt) }
+  refine ⟨idx, (cleanContent E cfg st { call with lines := readlines (universalNewlines txt) }).2, hp, hb, hm, ?_⟩
   simp only at hf
   split at hf
   · cases hf
@@ -351,6 +381,18 @@ example :
     let cfg : Cfg := ⟨"h.d".toList, false, false, false, false, ["averylongkeyword".toList], ["DROP".toList]⟩
     (cleanFile E cfg {} ⟨["password".toList], false, none, []⟩ (.file "a averylongkeyword\nDROP me\nlast".toList)).2 =
       .file "a keyword0\nlast".toList := by
+  decide
+
+/-- a vertical tab, a form feed, U+0085 and U+2028 do NOT end a line: the pattern behind them removes the whole physical
+line; a carriage return does (text mode translates it): only the part behind it is removed — known finding
+clean-file-splits-at-cr -/
+example :
+    let E : Env := ⟨fun _ => [], fun _ => [], fun _ => [], fun _ => false, fun _ => [], fun _ => false, fun _ => [], id, {}⟩
+    let cfg : Cfg := ⟨"h.d".toList, false, false, false, false, [], ["DROP".toList]⟩
+    (cleanFile E cfg {} ⟨["password".toList], false, none, []⟩
+      (.file "a\x0bDROP\nb\x0cDROP\nc\u0085DROP\nd\u2028DROP\nkept\n".toList)).2 = .file "kept\n".toList ∧
+    (cleanFile E cfg {} ⟨["password".toList], false, none, []⟩ (.file "head\rDROP tail\nkept\n".toList)).2 =
+      .file "head\nkept\n".toList := by
   decide
 
 end IV.CleanState
